@@ -14,7 +14,7 @@ from vf import lops
 from vf.monitors import STATE
 from vf.oracles.algebra import Spec
 from vf.oracles import ndft as ONDFT
-from vf.common import Plan, crandn, held, violated, inconclusive, rng_for, nrm, inner, pick
+from vf.common import structured, Plan, crandn, held, violated, inconclusive, rng_for, nrm, inner, pick
 
 SPEC = {
     "rule": ("cases = operator descriptions: every leaf class, exhaustive 1-D block settings "
@@ -154,7 +154,8 @@ def run_one(case):
                 N.oshape, N.ishape, A.ishape, A.ishape), wit, mech="shape")
         worst = 0.0
         for k in range(3):
-            x = crandn(rng, tuple(A.ishape), np.complex64 if single else np.complex128)
+            with structured((sum(case["rs"]) // 3) % 9 if sum(case["rs"]) % 2 else 0):
+                x = crandn(rng, tuple(A.ishape), np.complex64 if single else np.complex128)
             if k == 2 and x.size:           # sparse probe: isolates coverage-count errors
                 x = np.zeros(tuple(A.ishape), np.complex64 if single else np.complex128)
                 x.reshape(-1)[int(rng.integers(x.size))] = 1 + 1j
